@@ -212,6 +212,18 @@ func hexList(l []string) []string {
 	return out
 }
 
+var docFailed = map[string]bool{}
+
+// docFail reports the first failing document of a signature (the smallest of a few would need a shrinker of documents) and counts the others
+func docFail(c *Ctx, sig string, det map[string]any) {
+	if docFailed[sig] {
+		c.Count("further-failures:" + sig)
+		return
+	}
+	docFailed[sig] = true
+	c.Fail(sig, det)
+}
+
 // checkDoc renders with benign and hostile values and compares the structure
 func checkDoc(c *Ctx, src string, vals []string, sig string) bool {
 	benign := []string{"a", "b", "c", "d", "e"}
@@ -225,7 +237,7 @@ func checkDoc(c *Ctx, src string, vals []string, sig string) bool {
 	det := map[string]any{"doc_template": src, "doc_values": hexList(vals), "rendered": out, "rendered_benign": bo}
 	if err != nil {
 		det["error"] = err.Error()
-		c.Fail("doc-run-error", det)
+		docFail(c, "doc-run-error", det)
 		return false
 	}
 	want, got := docTokens(bo), docTokens(out)
@@ -240,7 +252,7 @@ func checkDoc(c *Ctx, src string, vals []string, sig string) bool {
 				break
 			}
 		}
-		c.Fail(sig, det)
+		docFail(c, sig, det)
 		return false
 	}
 	c.Count("nontrivial")
